@@ -185,12 +185,50 @@ def observe(ns, live, model, I, names=None):
     return obs
 
 
-def lattice_edit(rng, model, I):
+def lattice_edit(rng, model, I, kinds=("ram", "cpu", "starts", "fixed", "ds", "dur")):
     """one edit that keeps the model on the lattice: returns (edit for efx.apply_edit_*, new I)"""
     import copy
     I2 = copy.deepcopy(I)
     jobs = sorted(I["job"])
-    kind = rng.choice(["ram", "cpu", "starts", "fixed", "ds", "dur"])
+    kind = rng.choice(list(kinds))
+    if kind in ("dupjob", "dupstep", "reorder", "dupdev"):
+        # list edits that add or remove no object: only a multiplicity or an order changes
+        if kind == "dupjob":
+            cands = [s for s in sorted(I["t"]) if model[s]["lst"]["jobs"] and len(model[s]["lst"]["jobs"]) < 4]
+            if cands:
+                s = rng.choice(cands)
+                return ("listop", s, "jobs", "append", [rng.choice(model[s]["lst"]["jobs"])]), I2
+        elif kind == "dupstep":
+            cands = [n for n in sorted(model) if model[n]["cls"] == "UsageJourney" and len(model[n]["lst"]["uj_steps"]) < 4]
+            if cands:
+                uj = rng.choice(cands)
+                return ("listop", uj, "uj_steps", "append", [rng.choice(model[uj]["lst"]["uj_steps"])]), I2
+        elif kind == "reorder":
+            cands = [n for n in sorted(model) if model[n]["cls"] == "UsageJourney"
+                     and model[n]["lst"]["uj_steps"] != list(reversed(model[n]["lst"]["uj_steps"]))]
+            if cands:
+                uj = rng.choice(cands)
+                return ("list", uj, "uj_steps", list(reversed(model[uj]["lst"]["uj_steps"]))), I2
+        else:
+            up = rng.choice(sorted(I["up"]))
+            if len(model[up]["lst"]["devices"]) < 3:
+                return ("listop", up, "devices", "append", [rng.choice(model[up]["lst"]["devices"])]), I2
+        return lattice_edit(rng, model, I, [k for k in kinds if k != kind] or ("starts",))
+    if kind in ("ci", "svci", "net", "pue"):
+        table, key, choices = {"ci": (I2["ci"], None, [10, 50, 85]), "svci": (I2["sv"], "ci", [10, 20]),
+                               "net": (I2["net"], None, [1, 2, 5]), "pue": (I2["sv"], "pue", [1, 2])}[kind]
+        o = rng.choice(sorted(table))
+        cur = table[o] if key is None else table[o][key]
+        new = rng.choice([x for x in choices if x != cur])
+        if key is None:
+            table[o] = new
+        else:
+            table[o][key] = new
+        if kind == "ci" or kind == "svci":
+            return ("input", o, "average_carbon_intensity", [new, "g/kWh"]), I2
+        if kind == "net":
+            return ("input", o, "bandwidth_energy_intensity", [new * 1e-4, "Wh/kB"]), I2
+        return ("input", o, "power_usage_effectiveness", [new, "dimensionless"]), I2
     if kind in ("ram", "cpu"):
         j = rng.choice(jobs)
         f = rng.choice([2, 5, 20, 60])
@@ -206,7 +244,7 @@ def lattice_edit(rng, model, I):
     if kind == "fixed":
         cands = [v for v in sorted(I["sv"]) if I["sv"][v]["type"] == "on-premise"]
         if not cands:
-            return lattice_edit(rng, model, I)
+            return lattice_edit(rng, model, I, kinds)
         v = rng.choice(cands)
         I2["sv"][v]["fixed"] = rng.choice([1, 2, 5, 40])
         return ("opt", v, "fixed_nb", I2["sv"][v]["fixed"]), I2
@@ -214,7 +252,7 @@ def lattice_edit(rng, model, I):
         j = rng.choice(jobs)
         I2["job"][j]["ds"] = rng.choice([0, 6, 60, 600, -6])
         if I2["job"][j]["ds"] == I["job"][j]["ds"]:
-            return lattice_edit(rng, model, I)
+            return lattice_edit(rng, model, I, kinds)
         return ("input", j, "data_stored", [I2["job"][j]["ds"], "kB"]), I2
     j = rng.choice(jobs)
     I2["job"][j]["dur"] = rng.choice([1, 2, 4, 6, 10])
